@@ -235,6 +235,7 @@ META_EXTRA = 'ALIAS (value parameter read before elements are shifted); SLOTS-W 
 META = (META[0] + " " + META_EXTRA, META[1])
 META = (META[0] + ' SIB (cv/ref-qualified overloads of one member agree); INITFORM (forwarded packs direct-non-list-initialise).', META[1])
 META = (META[0] + ' ERASECNT (erase / erase_if return the distance of the erased range); RESIZE (resize works only at end()).', META[1])
+META = (META[0] + ' ROTINS (append-then-rotate inserts rotate from the position parameter); SLOTS-D / SLOTS-C.', META[1])
 
 
 def resize_rule(chk, db):
